@@ -45,7 +45,7 @@ EndRun ==
             ELSE bad
   /\ r' = r + 1 /\ l' = 1
   /\ file' = InitFile /\ exists' = (InitFile.lines # <<>>)
-  /\ writer' = "" /\ readers' = {}
+  /\ writer' = "" /\ readers' = [g \in Gs |-> 0] /\ pend' = {}
   /\ pc' = [g \in Gs |-> 1] /\ kind' = [g \in Gs |-> ""]
   /\ seen' = [g \in Gs |-> EmptyFile] /\ scan' = [g \in Gs |-> EmptyFile]
   /\ hmode' = [g \in Gs |-> ""] /\ trunc' = [g \in Gs |-> FALSE] /\ tmp' = [g \in Gs |-> EmptyFile]
